@@ -1,4 +1,6 @@
 //! Oracle children for combinator contracts: they record what they are shown and answer symbolically.
+#[cfg(not(kani))]
+use crate::kani;
 use core::cell::Cell;
 use core::time::Duration;
 use emit::{
